@@ -362,7 +362,7 @@ def strip_sig(LS, sig):
     return LS
 
 
-@rule("R16.4", props=["C16", "C18"], floor=3, title="shard(sig) and Sig::high_bits select the same top bits of sig[0]; shard_high_bits is 63 - shard_bits_shift")
+@rule("R16.4", props=["C16", "C18", "C07", "C08"], floor=3, title="shard(sig) and Sig::high_bits select the same top bits of sig[0]; shard_high_bits is 63 - shard_bits_shift")
 def r16_4(ctx, rr):
     F = ctx.F()
     DI = DeepInliner(F)
@@ -417,12 +417,23 @@ def r16_5(ctx, rr):
         seen = 0
         body = b
         asserts = []
+        bounded = []
         while body is not None and seen < 3:
             for n in walk(body.body):
                 if n.get("k") == "If" and diverges(F, n["th"]) and not is_debug_only(F, n):
                     c = show(F, n["c"])
                     if "MAX" in c or "max_vertices" in c:
                         asserts.append(c)
+                        # the quantity that is bounded: `!(Q <= bound)` / `Q > bound`
+                        cn = n["c"]
+                        neg = False
+                        while cn.get("k") == "Unary" and cn.get("op") == "!":
+                            cn = cn["e"]
+                            neg = not neg
+                        if cn.get("k") == "Binary" and cn["op"] in ("<=", "<", ">", ">="):
+                            q = cn["l"] if (cn["op"] in ("<=", "<")) == neg else cn["r"]
+                            slf_b = ("var", "self", body.params[0]["id"])
+                            bounded.append(rewrite_term(strip_casts_t(Termizer(F, body).term(q)), slf_b, ("var", "self")))
             nxt = None
             for n in walk(body.body):
                 if n.get("k") in ("Call", "MethodCall") and (cname(F, n) or "").endswith("set_up_graphs"):
@@ -433,6 +444,26 @@ def r16_5(ctx, rr):
             seen += 1
         rr.instances += 1
         rr.check(bool(asserts), "%s:vertex-bound-asserted" % nm, "%s::set_up_graphs must assert that the number of vertices fits the Vertex type (<= Vertex::MAX + 1)" % ref, b.span)
+        # ... and what it bounds is the number of vertices itself (all l + 2 segments), as num_vertices() computes it
+        nv = ms.get("num_vertices")
+        if asserts and nv is not None and nv.params:
+            seenv = 0
+            while nv is not None and seenv < 3:
+                fw = [n for n in walk(nv.body) if n.get("k") in ("Call", "MethodCall") and (cname(F, n) or "").endswith("num_vertices")]
+                r = DeepInliner(F).resolve(fw[0]) if fw else None
+                if r is None or r is nv:
+                    break
+                nv = r
+                seenv += 1
+            tv = rewrite_term(strip_casts_t(Termizer(F, nv).term(nv.body)), ("var", "self", nv.params[0]["id"]), ("var", "self"))
+            # through a forwarding wrapper the fields are those of the inner value
+            norm = lambda t: rewrite_where_t(t, lambda x: x[0] == "field" and x[2] == "0" and x[1] == ("var", "self"), ("var", "self"))
+            rr.instances += 1
+            # (an implementation may instead bound the requested number of cells before rounding it to segments, in
+            # a wider type: only a bound stated on the geometry fields is compared with num_vertices())
+            on_fields = [q for q in bounded if mentions(q, lambda x: x[0] == "field")]
+            okq = not on_fields or any(norm(q) == norm(tv) for q in on_fields) or not mentions(tv, lambda x: x[0] == "field")
+            rr.check(okq, "%s:vertex-bound-is-num-vertices" % nm, "%s::set_up_graphs bounds `%s` by the range of the Vertex type, but the number of vertices is `%s`: vertices of the uncovered segments do not fit the type they are stored in by the builder" % (ref, "`, `".join(tshow(q)[:60] for q in bounded) or "nothing recognisable", tshow(tv)[:60]), b.span)
 
 
 @rule("R16.7", props=["C16", "C11"], floor=10, title="vertex arithmetic (num_vertices, edge helpers) is carried out in 64-bit or wider types", configs=("default", "mwhc"))
@@ -462,3 +493,44 @@ def r16_7(ctx, rr):
             if narrow:
                 n = narrow[0]
                 rr.violate(key, "%s computes `%s` in the %d-bit type %s: for large key sets the result exceeds the type and is silently truncated, so num_vertices()/the edge no longer agree with each other" % (b.key, show(F, n)[:120], INT_WIDTH[F.ty(n)], F.ty(n)), F.loc(n))
+
+
+def strip_casts_t(t):
+    if not isinstance(t, tuple) or not t:
+        return t
+    if t[0] == "cast":
+        return strip_casts_t(t[2])
+    return tuple(strip_casts_t(x) if isinstance(x, tuple) else x for x in t)
+
+
+def rewrite_where_t(t, pred, new):
+    if not isinstance(t, tuple) or not t:
+        return t
+    if isinstance(t[0], str) and pred(t):
+        return new
+    return tuple(rewrite_where_t(x, pred, new) if isinstance(x, tuple) else x for x in t)
+
+
+@rule("R16.8", props=["C16", "C07", "C08"], floor=6, title="the builder takes the vertices of a key from local_edge() only: edge() adds the shard's offset, which is the caller's business at query time and the chunk's at build time")
+def r16_8(ctx, rr):
+    """Every shard is solved in its own chunk of the backend, addressed from 0: the graph, the peeling order and the
+    assignment all use `local_edge(local_sig(sig))`. `edge(sig)` is the same triple plus `shard(sig) * num_vertices()`
+    (R16.1) -- identical for a single shard, outside the chunk for every other one."""
+    F = ctx.F()
+    n_local = 0
+    for b in F.fns():
+        if not b.file.endswith("func/vbuilder.rs") or b.dk not in ("Fn", "AssocFn"):
+            continue
+        for n in walk(b.body):
+            cn = cname(F, n) or ""
+            if n.get("k") in ("Call", "MethodCall") and cn.endswith("ShardEdge::local_edge"):
+                n_local += 1
+                rr.instances += 1
+                rr.ob(True, key="vbuilder:local_edge", nontrivial=False)
+            elif n.get("k") in ("Call", "MethodCall") and cn.endswith("ShardEdge::edge"):
+                rr.instances += 1
+                key = "%s:global-edge-in-builder" % short_fn(b.key)
+                rr.ob(False, key=key, sample={"fn": b.key, "call": show(F, n)[:80]})
+                rr.violate(key, "%s calls `%s`: the builder works on one shard at a time, in a chunk addressed from 0, and must use local_edge(local_sig(sig)); edge() already includes the offset of the shard, so for every shard but the first the vertices fall outside the chunk (or into another shard's cells)" % (b.key, show(F, n)[:80]), F.loc(n))
+    if n_local < 6:
+        raise AnchorMissing("R16.8: expected at least 6 uses of local_edge in the builder, found %d" % n_local)
